@@ -424,3 +424,26 @@ def trig_args(cols, cos):
             if isinstance(t, z3.ExprRef):
                 rec(t)
     return out
+
+
+def patch_class_table(P):
+    """execute the registration code of /repo once (class creation hooks + decorators, real bodies) so that
+    ClassInfo.patched reflects what the decorators rewire (square: out_structure, symmetric: transpose,
+    orthogonal: inverse).  Used by packs of other facets that need the effective methods of decorated classes."""
+    if getattr(P, '_patched_done', False):
+        return
+    from pyvc.interp import Interp
+    from pyvc.run import Run
+
+    class _S:
+        pass
+    run = Run([])
+    I = Interp(P, run, theory())
+    I.obl_prefix = 'patch'
+    I.cur_name = lambda: 'patch'
+    s = _S()
+    s.ck = _S()
+    s.ck.P = P
+    s.I = I
+    run_registration(s)
+    P._patched_done = True
